@@ -18,52 +18,72 @@ def charOfPt (p : Pt) : Char :=
     | .move => 'm' | .line => 'l' | .off => 'o' | .curve => 'c' | .qcurve => 'q'
   if p.smooth then c.toUpper else c
 
-def parseContour (s : String) : Option (List Pt) := s.toList.mapM ptOfChar
+/-- a contour token: one letter per point, `'` after a letter = the point carries a name -/
+def parseContourN : List Char → Option (List (Pt × Bool))
+  | [] => some []
+  | c :: '\'' :: r => match ptOfChar c, parseContourN r with
+    | some p, some t => some ((p, true) :: t)
+    | _, _ => none
+  | c :: r => match ptOfChar c, parseContourN r with
+    | some p, some t => some ((p, false) :: t)
+    | _, _ => none
 
-def parseContoursTok (tok : String) : Option (List (List Pt)) :=
+def parseContoursTok (tok : String) : Option (List (List (Pt × Bool))) :=
   if !tok.startsWith ":" then none else
   let body := (tok.drop 1).toString
-  if body = "" then some [] else (body.splitOn ",").mapM parseContour
+  if body = "" then some [] else (body.splitOn ",").mapM (fun s => parseContourN s.toList)
 
-/-- render the kept contours with their original index, as the harness does -/
-def renderKept (cs : List (List Pt)) : String :=
-  let rec go (i : Nat) : List (List Pt) → List String
-    | [] => []
-    | c :: r => if c.isEmpty then go (i + 1) r
-                else (toString i ++ "=" ++ String.ofList (c.map charOfPt)) :: go (i + 1) r
-  ":" ++ ",".intercalate (go 0 cs)
+def renderContourN (c : List (Pt × Bool)) : String :=
+  String.ofList (c.flatMap fun e => if e.2 then [charOfPt e.1, '\''] else [charOfPt e.1])
+
+def renderKept (kept : List (Nat × List (Pt × Bool))) (anchors : List Nat) : String :=
+  ":" ++ ",".intercalate (kept.map fun e => toString e.1 ++ "=" ++ renderContourN e.2) ++
+  " A:" ++ ",".intercalate (anchors.map toString)
 
 def run (inp obs : List String) : Verdict :=
   match inp with
-  | [_, _fmt, ctok] =>
+  | [_, fmt, ctok] =>
     match parseContoursTok ctok with
     | none => { agree := false, model := "bad-input" }
     | some cs =>
+      let v1 := fmt = "1"
+      let plain := cs.map (·.map Prod.fst)
       -- model
-      let modelOut := match parseContours cs with
+      let modelOut := match parseOutline v1 cs with
         | none => "err"
-        | some _ => "ok " ++ renderKept cs
+        | some (kept, anchors) => "ok " ++ renderKept kept anchors
       -- implementation observation, reduced to the compared part
       let implOut := match obs with
         | "ok" :: rest => "ok " ++ " ".intercalate rest
         | "err" :: _ => "err"
         | _ => " ".intercalate obs
-      -- specification oracle on the implementation's verdict, independent of the model:
-      -- accepted ⇔ every contour legal; returned = non-empty inputs, in order
-      let allLegal := cs.all legalB
+      -- specification oracle on the implementation's verdict, independent of the builder model:
+      -- accepted ⇔ every contour legal; returned = the non-empty inputs, in order, point for point, names
+      -- where they were - except (format 1 only) the contours that are exactly one named move point, which
+      -- must come back as anchors
+      let allLegal := plain.all legalB
+      let ne := (enumFrom 0 cs).filter (fun e => !e.2.isEmpty)
+      let isAnchor := fun (c : List (Pt × Bool)) => v1 && (match c with
+        | [(p, true)] => p.typ == .move
+        | _ => false)
+      let expKept := ne.filter (fun e => !isAnchor e.2)
+      let expAnch := (ne.filter (fun e => isAnchor e.2)).map (·.1)
       let spec :=
         match obs with
         | "ok" :: rest =>
           (if allLegal then [] else ["accepted-illegal"]) ++
-          (if " ".intercalate rest = renderKept cs then [] else ["returned-contours-differ"])
+          (if " ".intercalate rest = renderKept expKept expAnch then [] else ["returned-contours-differ"])
         | "err" :: _ => if allLegal then ["rejected-legal"] else []
         | _ => ["panic-or-unknown"]
       let tags :=
         [if allLegal then "legal" else "illegal",
          "contours" ++ toString (min cs.length 4),
          "maxlen" ++ toString (min ((cs.map List.length).foldl max 0) 10)] ++
-        (if cs.any (fun c => isClosed c && !c.isEmpty && trailOffs c > 0) then ["wrap"] else []) ++
-        (if cs.any (fun c => c.any (·.smooth)) then ["smooth"] else []) ++
+        (if plain.any (fun c => isClosed c && !c.isEmpty && trailOffs c > 0) then ["wrap"] else []) ++
+        (if plain.any (fun c => c.any (·.smooth)) then ["smooth"] else []) ++
+        (if cs.any (fun c => c.any (·.2)) then ["named"] else []) ++
+        (if !expAnch.isEmpty then ["v1-anchor"] else []) ++
+        (if plain.any (fun c => c.length ≥ 250) then ["long-run"] else []) ++
         (if cs.any List.isEmpty then ["empty-contour"] else []) ++
         (if cs.any (fun c => c.length ≥ 2) then ["nt"] else [])
       { agree := modelOut == implOut, spec := spec, tags := tags, model := modelOut }
